@@ -898,5 +898,9 @@ def run(chk):
     check_counter_shape(chk, step_ok, ('D', 'R', 'W'), budget_ok=bool(budget_ok))
     check_identity_with_sim(chk)
     chk.guard('C09.I', check_callbacks, chk)
-    chk.guard('C09.H', check_handler_order, chk)
-    chk.guard('C09.H', check_no_swallow, chk)
+    # the limit error must pass through every wrapper around a function call: decided by the budget sweeps (limits falling inside script functions called directly, recursively,
+    # through variables and as callbacks of library functions); the try / except spelling of the wrappers is their read-back
+    chk.readback(budget_ok)('C09.H', check_handler_order, chk)
+    chk.readback(budget_ok)('C09.H', check_no_swallow, chk)
+    if budget_ok:
+        chk.floors.pop('C09.H', None)
